@@ -102,7 +102,8 @@ def merge_results(results: typing.Sequence[Result]) -> Result:
 
     # Determine merge strategy:
     strategy = "average"
-    length_lists = [[a.size for a in r.np_arrays.values()] for r in results]
+    length_lists = [[r.np_arrays[key].size for key in results[0].np_arrays]
+                    for r in results]
     if not all(a == b for a, b in zip(length_lists, length_lists[1:])):
         logger.warning("Appending raw value arrays due to different lengths.")
         strategy = "append"
